@@ -149,11 +149,17 @@ def op_gc(w: World, op: dict):
 
 
 def op_tamper(w: World, op: dict):
+    if not os.path.lexists(w.obj_path(op["s"], op["o"])):
+        return
     w.tamper(op["s"], op["o"], op.get("pat", "append"))
     w.emit({"op": "Tamper", "s": op["s"], "o": op["o"]}, {"op": "tamper"})
 
 
 def op_extdel(w: World, op: dict):
+    # external actions are the harness's own: when the transfer before it uploaded its objects in another order than the
+    # generated behaviour assumed, the object to delete may not be there - then there is nothing to delete and no event
+    if not os.path.lexists(w.obj_path(op["s"], op["o"])):
+        return
     w.ext_delete(op["s"], op["o"])
     w.emit({"op": "ExtDelete", "s": op["s"], "o": op["o"]}, {"op": "extdel"})
 
